@@ -395,12 +395,13 @@ namespace ratio
         assert(cnfl.empty());
         assert(gr.phis.count(variable(p)) || gr.rhos.count(variable(p)));
 
+        // notice that both phis and rhos might be negative literals (e.g., the rho of the resolver which assigns 'false' to a boolean variable), hence we look at the value of the literals rather than at the value of their variable..
         if (const auto at_phis_p = gr.phis.find(variable(p)); at_phis_p != gr.phis.cend())
-            switch (sat->value(at_phis_p->first))
-            {
-            case True: // some flaws have been activated..
-                for (const auto &f : at_phis_p->second)
+        {
+            for (const auto &f : at_phis_p->second)
+                switch (sat->value(f->phi))
                 {
+                case True: // the flaw has been activated..
                     assert(!flaws.count(f));
                     if (!root_level())
                         trail.back().new_flaws.insert(f);
@@ -410,41 +411,33 @@ namespace ratio
                     else if (!root_level())
                         trail.back().solved_flaws.insert(f); // this flaw has been accidentally solved..
                     gr.activated_flaw(*f);
-                }
-                if (root_level()) // since we are at root-level, we can perform some cleaning..
-                    gr.phis.erase(at_phis_p);
-                break;
-            case False: // some flaws have been negated..
-                for (const auto &f : at_phis_p->second)
-                {
+                    break;
+                case False: // the flaw has been negated..
                     assert(!flaws.count(f));
                     gr.negated_flaw(*f);
+                    break;
                 }
-                if (root_level()) // since we are at root-level, we can perform some cleaning..
-                    gr.phis.erase(at_phis_p);
-                break;
-            }
+            if (root_level()) // since we are at root-level, we can perform some cleaning..
+                gr.phis.erase(at_phis_p);
+        }
 
         if (const auto at_rhos_p = gr.rhos.find(variable(p)); at_rhos_p != gr.rhos.cend())
-            switch (sat->value(at_rhos_p->first))
-            {
-            case True: // some resolvers have been activated..
-                for (const auto &r : at_rhos_p->second)
+        {
+            for (const auto &r : at_rhos_p->second)
+                switch (sat->value(r->rho))
                 {
+                case True:                                        // the resolver has been activated..
                     if (flaws.erase(&r->effect) && !root_level()) // this resolver has been activated, hence its effect flaw has been resolved (notice that we remove its effect only in case it was already active)..
                         trail.back().solved_flaws.insert(&r->effect);
                     gr.activated_resolver(*r);
-                }
-                if (root_level()) // since we are at root-level, we can perform some cleaning..
-                    gr.rhos.erase(at_rhos_p);
-                break;
-            case False: // some resolvers have been negated..
-                for (const auto &r : at_rhos_p->second)
+                    break;
+                case False: // the resolver has been negated..
                     gr.negated_resolver(*r);
-                if (root_level()) // since we are at root-level, we can perform some cleaning..
-                    gr.rhos.erase(at_rhos_p);
-                break;
-            }
+                    break;
+                }
+            if (root_level()) // since we are at root-level, we can perform some cleaning..
+                gr.rhos.erase(at_rhos_p);
+        }
 
         return true;
     }
